@@ -6,6 +6,7 @@ use cucumber::{
     event::{self, Cucumber, Feature, Hook, HookType, Info, Rule, Scenario, Step, StepError},
     parser,
 };
+use cucumber::gherkin;
 use serde::{Deserialize, Serialize};
 
 use crate::{core::SimCore, world::{CustomPayload, SimWorld}};
@@ -195,22 +196,64 @@ pub fn token_of(s: &str) -> Option<String> {
     None
 }
 
-/// Assigns small per-run ordinals to `Source` pointers. Keeps a clone of every `Source`
-/// alive so an address is never reused for another entity within a run.
+/// What tells two entities at the same address apart (when `Source`s are not kept alive).
+pub trait Disc {
+    fn disc(&self) -> String;
+}
+impl Disc for gherkin::Feature {
+    fn disc(&self) -> String {
+        format!("F|{}|{:?}|{}", self.name, self.path, self.position.line)
+    }
+}
+impl Disc for gherkin::Rule {
+    fn disc(&self) -> String {
+        format!("R|{}|{}", self.name, self.position.line)
+    }
+}
+impl Disc for gherkin::Scenario {
+    fn disc(&self) -> String {
+        format!("S|{}|{}|{:?}", self.name, self.position.line, self.tags)
+    }
+}
+impl Disc for gherkin::Step {
+    fn disc(&self) -> String {
+        format!("T|{}|{}|{}", self.keyword, self.value, self.position.line)
+    }
+}
+
+/// Assigns small per-run ordinals to `Source` pointers. By default it keeps a clone of every `Source`
+/// alive, so an address is never reused for another entity within a run. In the non-retaining mode
+/// (`release()`; for plans whose entities all differ in name / position) nothing is kept alive - addresses
+/// of finished features ARE reused by later ones, as in a real run - and an entity is identified by its
+/// address together with what it is.
 #[derive(Default)]
 pub struct PtrMap {
-    map: std::collections::HashMap<usize, usize>,
+    map: std::collections::HashMap<(usize, String), usize>,
     keep: Vec<Box<dyn std::any::Any>>,
+    release: bool,
+    pub reused_addresses: usize,
+    seen_addr: std::collections::HashSet<usize>,
 }
 
 impl PtrMap {
-    pub fn id<T: 'static>(&mut self, src: &event::Source<T>) -> usize {
+    pub fn release(&mut self) {
+        self.release = true;
+    }
+
+    pub fn id<T: Disc + 'static>(&mut self, src: &event::Source<T>) -> usize {
         let p = std::ptr::from_ref::<T>(&**src) as usize;
         let n = self.map.len() + 1;
-        match self.map.entry(p) {
+        let key = (p, if self.release { src.disc() } else { String::new() });
+        match self.map.entry(key) {
             std::collections::hash_map::Entry::Occupied(o) => *o.get(),
             std::collections::hash_map::Entry::Vacant(v) => {
-                self.keep.push(Box::new(src.clone()));
+                if self.release {
+                    if !self.seen_addr.insert(p) {
+                        self.reused_addresses += 1;
+                    }
+                } else {
+                    self.keep.push(Box::new(src.clone()));
+                }
                 *v.insert(n)
             }
         }
